@@ -4,7 +4,7 @@ SEED=$1; CHECK=$2; TIER=${3:-quick}
 P=${SEED%%-*}
 WT=/tmp/wt/$P
 [ -d $WT ] || git -C /repo worktree add -q --detach $WT HEAD
-git -C $WT checkout -q -- . && git -C $WT apply /verif/seeded/$SEED/patch.diff || exit 3
+git -C $WT checkout -q -- . && git -C $WT clean -fdq && git -C $WT checkout -q --detach $(git -C /repo rev-parse HEAD) && git -C $WT apply /verif/seeded/$SEED/patch.diff || exit 3
 mkdir -p /tmp/seedruns/$SEED
 VERIF_OUT_DIR=/tmp/seedruns/$SEED EDGEGRAPH_ROOT=$WT /verif/bin/check $CHECK --tier $TIER > /tmp/seedruns/$SEED/$CHECK.log 2>&1
 RC=$?
